@@ -36,6 +36,19 @@
 #include <random>
 #include <vector>
 
+// Verification hooks (off unless TLX_VERIF_HOOKS is defined): one event per
+// step-object life-cycle operation, emitted by the thread that performed it.
+#if defined(TLX_VERIF_HOOKS)
+void tlx_verif_ps5_event(const char* ev, const void* step, const void* other,
+                         size_t n);
+#define TLX_VERIF_PS5(ev, step, other, n) \
+    ::tlx_verif_ps5_event(ev, step, other, n)
+#else
+#define TLX_VERIF_PS5(ev, step, other, n) \
+    do {                                  \
+    } while (0)
+#endif
+
 namespace tlx { namespace sort_strings_detail {
 
 class PS5SortStep;
@@ -185,12 +198,18 @@ protected:
     ~PS5SortStep()
     {
         assert(substep_working_ == 0);
+        TLX_VERIF_PS5("del", this, nullptr, 0);
     }
 
     //! Register new substep
     void substep_add()
     {
+#if defined(TLX_VERIF_HOOKS)
+        size_t v = ++substep_working_;
+        TLX_VERIF_PS5("add", this, nullptr, v);
+#else
         ++substep_working_;
+#endif
     }
 
 public:
@@ -198,8 +217,15 @@ public:
     void substep_notify_done()
     {
         assert(substep_working_ > 0);
+#if defined(TLX_VERIF_HOOKS)
+        size_t v = --substep_working_;
+        TLX_VERIF_PS5("dec", this, nullptr, v);
+        if (v == 0)
+            substep_all_done();
+#else
         if (--substep_working_ == 0)
             substep_all_done();
+#endif
     }
 };
 
@@ -322,6 +348,7 @@ public:
         TLX_LOGC(ctx_.debug_steps)
             << "enqueue depth=" << depth_ << " size=" << strptr_.size()
             << " flip=" << strptr_.flipped();
+        TLX_VERIF_PS5("new_small", this, pstep, 0);
     }
 
     virtual ~PS5SmallsortJob()
@@ -341,6 +368,7 @@ public:
 
         TLX_LOGC(ctx_.debug_jobs)
             << "Process PS5SmallsortJob " << this << " of size " << n;
+        TLX_VERIF_PS5("small_run", this, nullptr, 0);
 
         // create anonymous wrapper job
         this->substep_add();
@@ -1168,6 +1196,7 @@ public:
         TLX_LOGC(ctx_.debug_recursion)
             << "SmallSort[" << depth_ << "] "
             << "all substeps done -> LCP calculation";
+        TLX_VERIF_PS5("all_done", this, pstep_, 0);
 
         while (ms_front_ > 0)
         {
@@ -1253,6 +1282,7 @@ public:
             << "enqueue depth=" << depth_ << " size=" << strptr_.size()
             << " parts=" << parts_ << " psize=" << psize_
             << " flip=" << strptr_.flipped();
+        TLX_VERIF_PS5("new_big", this, pstep, parts_);
 
         ctx.threads_.enqueue([this]() { sample(); });
         ++ctx.para_ss_steps;
@@ -1269,6 +1299,7 @@ public:
     {
         ScopedMultiTimer smt(ctx_.mtimer, "para_ss");
         TLX_LOGC(ctx_.debug_jobs) << "Process SampleJob @ " << this;
+        TLX_VERIF_PS5("sample", this, nullptr, parts_);
 
         const size_t oversample_factor = 2;
         size_t sample_size = oversample_factor * num_splitters_;
@@ -1322,8 +1353,15 @@ public:
         for (std::uint16_t* bc = bktcache; bc != bktcache + (strE - strB); ++bc)
             ++bkt[*bc];
 
+#if defined(TLX_VERIF_HOOKS)
+        size_t v = --pwork_;
+        TLX_VERIF_PS5("count", this, nullptr, v);
+        if (v == 0)
+            count_finished();
+#else
         if (--pwork_ == 0)
             count_finished();
+#endif
     }
 
     void count_finished()
@@ -1387,8 +1425,15 @@ public:
 
         bktcache_[p].destroy();
 
+#if defined(TLX_VERIF_HOOKS)
+        size_t v = --pwork_;
+        TLX_VERIF_PS5("dist", this, nullptr, v);
+        if (v == 0)
+            distribute_finished();
+#else
         if (--pwork_ == 0)
             distribute_finished();
+#endif
     }
 
     void distribute_finished()
@@ -1492,7 +1537,10 @@ public:
         // happen before the anonymous handle is released: if no substep is
         // outstanding, substep_notify_done() deletes this object.
         if (!strptr_.with_lcp)
+        {
+            TLX_VERIF_PS5("bkt_destroy", this, nullptr, 0);
             bkt_[0].destroy();
+        }
 
         this->substep_notify_done(); // release anonymous subjob handle
     }
@@ -1503,6 +1551,7 @@ public:
     void substep_all_done() final
     {
         ScopedMultiTimer smt(ctx_.mtimer, "para_ss");
+        TLX_VERIF_PS5("all_done", this, pstep_, 0);
         if (strptr_.with_lcp)
         {
             TLX_LOGC(ctx_.debug_steps)
@@ -1572,6 +1621,7 @@ void parallel_sample_sort_base(const StringPtr& strptr, size_t depth)
 
     ctx.enqueue(/* pstep */ nullptr, strptr, depth);
     ctx.threads_.loop_until_empty();
+    TLX_VERIF_PS5("return", nullptr, nullptr, 0);
 
     timer.stop();
 
